@@ -5,7 +5,7 @@ import GarbleVerif.Model.SrcSem
 
 `bitExpr` / `bitStmts` / `bitStmt` follow `compile.rs` (`TypedExpr::compile`, `TypedStmt::compile`) on the
 core fragment of the language — Booleans and integers of every width, literals, variables, `!`, unary
-`-`, `+`, `-`, `<`, `>`, `<=`, `>=`, `==`, `!=`, `&`, `|`, `^` on Booleans, `&&`, `||`, casts between all of
+`-`, `+`, `-`, `*`, `/`, `%`, `<<`, `>>`, `<`, `>`, `<=`, `>=`, `==`, `!=`, `&`, `|`, `^` on Booleans, `&&`, `||`, casts between all of
 these types, `if`/`else` (as expression and as statement), blocks, `()`, `let`, `let mut` and assignment
 to a variable — but instead of emitting gates they compute the value every wire would carry for given
 inputs: operands become big-endian bit lists, operators are the bit-list functions of
@@ -77,6 +77,9 @@ def binBits (op : Src.BinOp) (t : STy) (x y : List Bool) : Option (STy × List B
   match op, t with
   | .add, .int k => let r := Arith.binop .add k.signed k.signed k.signed x y; some (.int k, r.1, r.2)
   | .sub, .int k => let r := Arith.binop .sub k.signed k.signed k.signed x y; some (.int k, r.1, r.2)
+  | .mul, .int k => let r := Arith.binop .mul k.signed k.signed k.signed x y; some (.int k, r.1, r.2)
+  | .div, .int k => let r := Arith.binop .div k.signed k.signed k.signed x y; some (.int k, r.1, r.2)
+  | .rem, .int k => let r := Arith.binop .mod k.signed k.signed k.signed x y; some (.int k, r.1, r.2)
   | .lt, .int k => let r := Arith.binop .lt k.signed k.signed false x y; some (.bool, r.1, r.2)
   | .gt, .int k => let r := Arith.binop .gt k.signed k.signed false x y; some (.bool, r.1, r.2)
   /- `a <= b` is parsed as `(a < b) | (a == b)` (both copies of the operands give the same wires) -/
@@ -113,6 +116,10 @@ def muxEnv (c : Bool) : BEnv → BEnv → BEnv
 
 /-- leaving a block: the bindings made inside are dropped -/
 def restoreB (outer inner : BEnv) : BEnv := inner.drop (inner.length - outer.length)
+
+def isIntLit : Expr → Bool
+  | .int _ _ => true
+  | _ => false
 
 mutual
 /-- type, bits, panic (the first one raised inside `e`, if any) and variables after an expression -/
@@ -155,7 +162,39 @@ def bitExpr (benv : BEnv) : Expr → Option (VTy × List Bool × P × BEnv)
         some (.s .bool, [x || y], seqP p1 (if x then none else p2), muxEnv x env1 env2)
       | _ => none
     | _ => none
+  /- `<<`, `>>`: the amount is a `u8`; overflow when it is not smaller than the width -/
+  | .bin .shl ty a b =>
+    match STy.ofTy ty with
+    | some (.int k) =>
+      match bitExpr benv a with
+      | some (.s (.int k'), x, p1, env1) =>
+        match bitExpr env1 b with
+        | some (.s (.int .u8), y, p2, env2) =>
+          if k' = k then
+            let r := Arith.binop .shl k.signed false k.signed x y
+            some (.s (.int k), r.1, seqP p1 (seqP p2 (firstOf r.2)), env2)
+          else none
+        | _ => none
+      | _ => none
+    | _ => none
+  | .bin .shr ty a b =>
+    match STy.ofTy ty with
+    | some (.int k) =>
+      match bitExpr benv a with
+      | some (.s (.int k'), x, p1, env1) =>
+        match bitExpr env1 b with
+        | some (.s (.int .u8), y, p2, env2) =>
+          if k' = k then
+            let r := Arith.binop .shr k.signed false k.signed x y
+            some (.s (.int k), r.1, seqP p1 (seqP p2 (firstOf r.2)), env2)
+          else none
+        | _ => none
+      | _ => none
+    | _ => none
+  /- the strict operators. A multiplication with a number literal as operand is compiled differently (repeated
+  addition for small literals, `Arith.constMul`): it is outside this model -/
   | .bin op ty a b =>
+    if op = .mul ∧ (isIntLit a || isIntLit b) = true then none else
     match STy.ofTy ty with
     | none => none
     | some t =>
